@@ -308,6 +308,36 @@ def _o5(ctx):
     ctx.check(bool(upd) and norm(upd[0].args[0]) == "evaluated_dump", R, p, upd[0] if upd else p.node, "arch variables are not published into the symbol table", "arch variables published (override outer)")
 
 
+def _o6(ctx):
+    R = "C21-O6"
+    ctx.doc(R, "names defined in the current object shadow outer ones when they are published to the object's other fields: attributes of an evaluated sub-object are written into the symbol table unconditionally (update / item store), never only where the name is still free")
+    n = 0
+    for fi in ctx.repo.all_funcs("accelforge/frontend/"):
+        for c in fi.walk():
+            if isinstance(c, ast.Call) and isinstance(c.func, ast.Attribute) and c.func.attr == "shallow_model_dump":
+                n += 1
+                # how does the dump reach the symbol table?
+                pm = parent_map(fi.node)
+                p_ = pm.get(id(c))
+                if isinstance(p_, ast.Attribute) and isinstance(pm.get(id(p_)), ast.Call):
+                    p_ = pm[id(p_)]  # `<dump>.items()`
+                ok, why = False, ""
+                if isinstance(p_, ast.Call) and isinstance(p_.func, ast.Attribute) and p_.func.attr == "update" and "symbol_table" in norm(p_.func.value):
+                    ok = True
+                elif isinstance(p_, ast.Call) and isinstance(p_.func, ast.Attribute) and p_.func.attr == "items":
+                    loop = pm.get(id(p_))
+                    body_txt = " ".join(norm(b) for b in getattr(loop, "body", []))
+                    if "setdefault(" in body_txt or ("not in symbol_table" in body_txt):
+                        why = "only names that are still free are published (setdefault / `not in` guard)"
+                    else:
+                        ok = True
+                else:
+                    continue  # the dump is used for something else (not a publication into the table)
+                ctx.check(ok, R, fi, p_, f"attributes of the evaluated object are published with {why}: a component attribute that re-defines a name bound further out (arch / spec variables) never reaches the component's own fields, so the outer value wins",
+                          "published unconditionally (inner names shadow outer ones)")
+    ctx.require(n >= 1, R, "publication of evaluated attributes into the symbol table")
+
+
 def check(ctx):
     fo = ctx.func(BT, "_get_parsable_field_order", "C21")
     _o1(ctx, fo)
@@ -320,6 +350,7 @@ def check(ctx):
     _o3(ctx, fin)
     _o4(ctx)
     _o5(ctx)
+    _o6(ctx)
 
 
 VARIANTS = [
